@@ -25,7 +25,7 @@ def parseBool : String → Option Bool
 
 def parseEv (tok : String) : Option Ev :=
   match tok.splitOn ":" with
-  | ["c", v, r, T] => do pure (.call (← v.toNat?) (← r.toNat?) (← T.toNat?))
+  | ["c", v, r, T] => do pure (.call (← v.toNat?) (SetM.budgetOf (← r.toInt?)) (← T.toNat?))
   | ["b"] => some .built
   | ["r", v, lo, hi] => do pure (.report ⟨← v.toNat?, ← lo.toNat?, ← hi.toNat?⟩)
   | ["w", d] => do pure (.wait (← d.toNat?))
